@@ -58,6 +58,16 @@ func (g *gen) pickOth() int { return oth0 + g.r.Intn(2) }
 
 // anybody who can hold funds and act in governance
 func (g *gen) pickGovActor() int {
+	for k := 0; k < 8; k++ {
+		a := g.pickGovActor1()
+		if _, gone := g.h.moved[a]; !gone { // a migrated source is never funded or used again
+			return a
+		}
+	}
+	return g.pickOth()
+}
+
+func (g *gen) pickGovActor1() int {
 	if g.avoid {
 		return g.pickOth()
 	}
@@ -246,7 +256,16 @@ func (g *gen) migrateAttempt() {
 func genHistory(h *Hist, r *lib.Rand, avoid bool) {
 	g := &gen{h: h, r: r, avoid: avoid}
 	// ---- accounts and funds ----
+	h.Exec(Op{Kind: "mint", A: oth0, Denom: "FX", Amt: fx(200000)})
 	for i := 0; i < nSrc; i++ {
+		if i >= 2 && r.Chance(50) {
+			// a vesting source: continuous or delayed, ending some days or weeks from now
+			mode := "continuous"
+			if r.Chance(40) {
+				mode = "delayed"
+			}
+			h.Exec(Op{Kind: "vest", A: i, B: oth0, Amt: fx(1000 + int64(r.Intn(30000))), Dt: (1 + int64(r.Intn(40))) * day, Mode: mode})
+		}
 		h.Exec(Op{Kind: "acct", A: i})
 		h.Exec(Op{Kind: "mint", A: i, Denom: "FX", Amt: fx(20000 + int64(r.Intn(80000)))})
 		for _, d := range otherDenoms {
@@ -646,5 +665,44 @@ func runMaturityWindow(seed int64, cw *CaseWriter, rep *lib.Report, r *lib.Rand)
 		h.Exec(Op{Kind: "block", Dt: 5 * sec})
 		rep.Count(fmt.Sprintf("maturity-window:offset=%d", off))
 		finish(h, rep, fmt.Sprintf("scenario-maturity-%d", i))
+	}
+}
+
+// runVestingScenarios: vesting accounts as migration sources — continuous (partly vested) and delayed (nothing
+// vested yet), with free funds in other denominations, with and without delegations; migration attempted while
+// something is locked, when all locked coins are delegated, and after the schedule has ended.
+func runVestingScenarios(seed int64, cw *CaseWriter, rep *lib.Report, r *lib.Rand) {
+	for i, mode := range []string{"continuous", "delayed"} {
+		h := NewHist(seed*1000+960+int64(i), cw, rep)
+		h.Exec(Op{Kind: "mint", A: oth0, Denom: "FX", Amt: fx(500000)})
+		h.Exec(Op{Kind: "block", Dt: 5 * sec})
+		// source 0: 10000 FX vesting over 10 days + free FX and another denom; source 1: everything locked gets delegated;
+		// source 2: plain account
+		h.Exec(Op{Kind: "vest", A: 0, B: oth0, Amt: fx(10000), Dt: 10 * day, Mode: mode})
+		h.Exec(Op{Kind: "vest", A: 1, B: oth0, Amt: fx(4000), Dt: 10 * day, Mode: mode})
+		for a := 0; a < 3; a++ {
+			h.Exec(Op{Kind: "acct", A: a})
+			h.Exec(Op{Kind: "mint", A: a, Denom: "FX", Amt: fx(300 + int64(r.Intn(200)))})
+			h.Exec(Op{Kind: "mint", A: a, Denom: "ibc/ABC", Amt: "1000"})
+		}
+		h.Exec(Op{Kind: "block", Dt: 5 * sec})
+		h.Exec(Op{Kind: "delegate", A: 0, V: val0, Amt: fx(2000)})
+		h.Exec(Op{Kind: "delegate", A: 1, V: val0 + 1, Amt: fx(4100)}) // more than the whole vesting amount
+		h.Exec(Op{Kind: "block", Dt: 5 * sec})
+		h.Exec(mig(0, tgt0, "tx")) // nothing vested yet / just started
+		h.Exec(Op{Kind: "block", Dt: 4*day + int64(r.Intn(2*int(day/sec)))*sec})
+		h.Exec(mig(0, tgt0, "tx"))   // partly vested (continuous) or still fully locked (delayed)
+		h.Exec(mig(0, tgt0, "srv"))  // the msg server alone
+		h.Exec(mig(1, tgt0+1, "tx")) // locked coins all delegated: LockedCoins is zero
+		h.Exec(mig(2, tgt0+2, "tx")) // plain account for contrast
+		h.Exec(Op{Kind: "block", Dt: 5 * sec})
+		h.Exec(Op{Kind: "undelegate", A: 0, V: val0, Amt: fx(500)})
+		h.Exec(Op{Kind: "block", Dt: 7 * day}) // the schedule has ended
+		h.Exec(mig(0, tgt0, "tx"))
+		h.Exec(Op{Kind: "block", Dt: 5 * sec})
+		h.Exec(Op{Kind: "withdraw", A: tgt0, V: val0, Mode: "must"})
+		h.Exec(Op{Kind: "block", Dt: 21 * day})
+		h.Exec(Op{Kind: "block", Dt: 5 * sec})
+		finish(h, rep, "scenario-vesting-"+mode)
 	}
 }
